@@ -59,6 +59,15 @@ func (t *c18Tainter) val(kind string) string {
 	case 5:
 		s += " " + strings.Repeat("sit amet consectetur ", 16) + "end"
 	}
+	// files in Latin-1 / ANSEL have bytes that are not valid UTF-8 (the decoder
+	// keeps them): a stray byte, or a cut-off multi-byte sequence, directly in
+	// front of every markup character
+	switch k % 9 {
+	case 4:
+		s = strings.NewReplacer("<", "\xe9<", `"`, "\xe9\"", "'", "\xe9'", "&", "\xe9&", ">", "\xe9>").Replace(s)
+	case 8:
+		s = strings.NewReplacer("<", "\xe2\x82<", `"`, "\xc3\"", "'", "\xf0\x9f'", "&", "\xe9x&", ">", "\xe9y>").Replace(s)
+	}
 	if t.benign {
 		// punctuation that no HTML context cares about, but that every string
 		// routine of the library (name cleaning, file keys, sorting) treats like
@@ -78,7 +87,9 @@ func (t *c18Tainter) val(kind string) string {
 func c18Doc(seed uint64, benign bool) (string, *c18Tainter) {
 	r := fw.NewRand(seed)
 	t := &c18Tainter{benign: benign, kinds: map[int]string{}, style: int(seed % 3)}
-	g := gen.NewFG(r, gen.FGOpts{People: r.Range(2, 9), ExactDates: true, NoLiving: false, StartYear: 1800})
+	// anything from "everybody died long ago" to "everybody is alive": the hide
+	// and placeholder modes leave rows, cells and whole groups out
+	g := gen.NewFG(r, gen.FGOpts{People: r.Range(2, 9), ExactDates: true, NoLiving: false, StartYear: []int{1800, 1800, 1900, 1940, 1970, 1995}[r.Intn(6)]})
 	g.Head = true
 	ptrs := map[string]string{}
 	for _, p := range g.People {
